@@ -55,9 +55,10 @@ if __name__ == "__main__":
     sys.stdout.flush()
     sys.stderr.flush()
     try:
-        from sim import build as _b
+        from sim import build as _b, simfs as _s
 
         _b.cleanup()
+        _s.cleanup()
     except Exception:
         pass
     os._exit(rc if isinstance(rc, int) else 2)
